@@ -25,7 +25,7 @@ RULE = (
     "would be destructive if the gate were broken is skipped and counted), each loaded at top level and nested under "
     "exc_cause / exc_context at depth 1-3 of a valid outer error, through exception_to_python and through "
     "TaskiqResult validation. (2) 'payloads': Hypothesis-generated payload trees (depth <= 3, cause and context "
-    "branches) whose nodes name: recording trap functions / lambdas / callable instances / functools.partial / "
+    "branches) whose nodes name: recording trap functions / lambdas / callable instances / functools.partial / a callable non-class object exposing __bases__ = (ValueError,) / "
     "non-exception classes with recording __new__/__init__ / a metaclass-callable class / exception instances / "
     "modules / builtins eval, print, type, object - reached by dotted paths of length 1-4 through module and class "
     "attributes - as well as exception classes (incl. nested and aliased ones, one whose constructor always fails), "
@@ -106,7 +106,7 @@ def enumerate_cases(shard: int, nshards: int) -> Iterable[Dict[str, Any]]:
 # ---- generated payload trees
 
 TRAP_TARGETS = [
-    ("vt_trapmod", "func"), ("vt_trapmod", "lam"), ("vt_trapmod", "callable_instance"), ("vt_trapmod", "partial"),
+    ("vt_trapmod", "func"), ("vt_trapmod", "lam"), ("vt_trapmod", "callable_instance"), ("vt_trapmod", "partial"), ("vt_trapmod", "class_proxy"),
     ("vt_trapmod", "NotExc"), ("vt_trapmod", "NotExc.static"), ("vt_trapmod", "NotExc.clsm"), ("vt_trapmod", "NotExc.InnerNot"),
     ("vt_trapmod", "LooksLikeExc"), ("vt_trapmod", "exc_instance"), ("vt_trapmod", "number"), ("vt_trapmod", "none"),
     ("vt_trapmod", "builtin_eval"), ("vt_trapmod", "builtin_print"), ("vt_trapmod", "type_type"), ("vt_trapmod", "object_type"),
